@@ -371,6 +371,7 @@ type c14Sub struct {
 // each on a fresh object with one subscriber.
 func c14Exhaustive(res *hx.Result, rng *hx.Rng, cf *hx.Cases, maxLen int) {
 	const k = 6
+	wedged := 0
 	for l := 1; l <= maxLen; l++ {
 		total := 1
 		for i := 0; i < l; i++ {
@@ -383,25 +384,33 @@ func c14Exhaustive(res *hx.Result, rng *hx.Rng, cf *hx.Cases, maxLen int) {
 				script[i] = c % k
 				c /= k
 			}
-			c14Sequence(res, rng, cf, -1, script)
+			if !c14Sequence(res, rng, cf, -1, script) {
+				if wedged++; wedged >= 3 {
+					return
+				}
+			}
 		}
 	}
 }
 
 func c14Sequential(res *hx.Result, rng *hx.Rng, cf *hx.Cases, n int) {
-	for i := 0; i < n; i++ {
-		c14Sequence(res, rng, cf, i, nil)
+	wedged := 0 // sequences given up because a call got no answer within its deadline: the family stops after three
+	for i := 0; i < n && wedged < 3; i++ {
+		if !c14Sequence(res, rng, cf, i, nil) {
+			wedged++
+		}
 	}
 }
 
 // c14Sequence: one sequence on a fresh object; script == nil: random operations
-func c14Sequence(res *hx.Result, rng *hx.Rng, cf *hx.Cases, i int, script []int) {
+func c14Sequence(res *hx.Result, rng *hx.Rng, cf *hx.Cases, i int, script []int) bool {
 	{
 		e, err := c14NewEnv()
 		if err != nil {
 			res.Fail("harness-setup", err.Error())
-			return
+			return false
 		}
+		wedged := false
 		var ops, descs []string
 		var subs []c14Sub
 		var last *c14Val // the value of the most recent write the implementation accepted
@@ -479,6 +488,7 @@ func c14Sequence(res *hx.Result, rng *hx.Rng, cf *hx.Cases, i int, script []int)
 		if script != nil {
 			nops = len(script) + 1
 		}
+	opsLoop:
 		for j := 0; j < nops; j++ {
 			x := rng.Intn(100)
 			var forcedName *c14Name
@@ -543,7 +553,13 @@ func c14Sequence(res *hx.Result, rng *hx.Rng, cf *hx.Cases, i int, script []int)
 				}
 			case x < 38:
 				// the generated getter
-				d, err := e.bomb.GetDelay()
+				var d int32
+				var err error
+				if _, answered := c14Within(5*time.Second, func() c14Res { d, err = e.bomb.GetDelay(); return c14Res{} }); !answered {
+					res.Fail("call-unanswered", "GetDelay(): no answer within 5 s, after: "+trace())
+					wedged = true
+					break opsLoop
+				}
 				evs := e.events()
 				r := "(STyped None)"
 				desc := "GetDelay()->error"
@@ -582,12 +598,18 @@ func c14Sequence(res *hx.Result, rng *hx.Rng, cf *hx.Cases, i int, script []int)
 			case x < 78:
 				// the generated setter
 				xv := c14GenInt(rng)
-				err := e.bomb.SetDelay(int32(xv))
-				evs := e.events()
-				r := c14Res{kind: 2}
-				if err != nil {
-					r.kind = 1
+				r, answered := c14Within(5*time.Second, func() c14Res {
+					if err := e.bomb.SetDelay(int32(xv)); err != nil {
+						return c14Res{kind: 1}
+					}
+					return c14Res{kind: 2}
+				})
+				if !answered {
+					res.Fail("call-unanswered", fmt.Sprintf("SetDelay(%d): no answer within 5 s, after: %s", int32(xv), trace()))
+					wedged = true
+					break opsLoop
 				}
+				evs := e.events()
 				desc := fmt.Sprintf("SetDelay(%d)->%s", int32(xv), r)
 				record(fmt.Sprintf("PSet %s %s", c14Delay.term(), c14Int(xv).term()), r.sres(), evs, desc)
 				checkWrite(desc, r, c14Int(xv), evs)
@@ -602,7 +624,12 @@ func c14Sequence(res *hx.Result, rng *hx.Rng, cf *hx.Cases, i int, script []int)
 				if forcedInt != nil {
 					xv = *forcedInt
 				}
-				r := e.update(xv)
+				r, answered := c14Within(5*time.Second, func() c14Res { return e.update(xv) })
+				if !answered {
+					res.Fail("call-unanswered", fmt.Sprintf("UpdateDelay(%d): did not return within 5 s, after: %s", int32(xv), trace()))
+					wedged = true
+					break opsLoop
+				}
 				evs := e.events()
 				desc := fmt.Sprintf("UpdateDelay(%d)->%s", int32(xv), r)
 				record(fmt.Sprintf("PUpdate %d", xv), r.sres(), evs, desc)
@@ -629,6 +656,7 @@ func c14Sequence(res *hx.Result, rng *hx.Rng, cf *hx.Cases, i int, script []int)
 			res.Sample(trace())
 		}
 		cf.Add("scases", fmt.Sprintf("{| sc_ops := [\n    %s] |}", strings.Join(ops, ";\n    ")), fmt.Sprintf("sequence %d: %s", i, trace()))
+		return !wedged
 	}
 }
 
@@ -1362,7 +1390,8 @@ func c14Linearizable(init *c14Val, ops []*c14Op) bool {
 
 func c14Concurrent(res *hx.Result, rng *hx.Rng, cf *hx.Cases, n int) {
 	frng := hx.NewRng(res.Seed*0x9e3779b97f4a7c15 + 0xc14c0c) // which histories run with the optional features on: a stream of its own
-	for i := 0; i < n; i++ {
+	wedged := 0                                               // histories in which a call got no answer within its deadline: the family stops after three
+	for i := 0; i < n && wedged < 3; i++ {
 		e, err := c14NewEnv()
 		if err != nil {
 			res.Fail("harness-setup", err.Error())
@@ -1452,14 +1481,14 @@ func c14Concurrent(res *hx.Result, rng *hx.Rng, cf *hx.Cases, n int) {
 				for j, o := range threads[t] {
 					o.inv = atomic.AddInt64(&clock, 1)
 					ok := true
-					switch {
+					switch { // (the helper and the second mailbox have no deadline of their own)
 					case o.update:
-						o.res = e.update(o.x)
+						o.res, ok = c14Within(5*time.Second, func() c14Res { return e.update(o.x) })
 					case t == 1: // second mailbox
 						if o.get {
-							o.res = e.directGet(o.nm)
+							o.res, ok = c14Within(5*time.Second, func() c14Res { return e.directGet(o.nm) })
 						} else {
-							o.res = e.directSet(o.nm, o.v)
+							o.res, ok = c14Within(5*time.Second, func() c14Res { return e.directSet(o.nm, o.v) })
 						}
 					default:
 						conn := 2
@@ -1476,6 +1505,9 @@ func c14Concurrent(res *hx.Result, rng *hx.Rng, cf *hx.Cases, n int) {
 					o.done = ok
 					if forced && t == 2 && j == 0 {
 						close(e.impl.hold) // one complete update has happened inside the held write
+					}
+					if !ok {
+						break // no answer within 5 s: the thread gives up, its remaining operations are not invoked
 					}
 				}
 			}(t)
@@ -1498,10 +1530,19 @@ func c14Concurrent(res *hx.Result, rng *hx.Rng, cf *hx.Cases, n int) {
 		e.close()
 		var all []*c14Op
 		overlap := false
+		unanswered := false
 		for _, th := range threads {
-			all = append(all, th...)
+			for _, o := range th {
+				if o.inv != 0 { // invoked
+					all = append(all, o)
+					unanswered = unanswered || !o.done
+				}
+			}
 		}
 		all = append(all, final)
+		if unanswered {
+			wedged++
+		}
 		var hist, descs []string
 		var accepted [][]byte
 		for _, o := range all {
